@@ -18,8 +18,9 @@
 #define IMG "/vmem/c17.img"
 #define BTAG 200
 
-enum { S_H, S_HSYNC, S_V, S_SD, S_GR, S_AN, S_NSESS };
-static const char *sessname[] = {"H-elements", "H-elements+midsync", "Vdata+Vgroup", "new-SDS", "new-GR-image", "annotations"};
+enum { S_H, S_HSYNC, S_V, S_SD, S_GR, S_AN, S_HSPEC, S_VATTR, S_SDCHUNK, S_GRPAL, S_NSESS };
+static const char *sessname[] = {"H-elements", "H-elements+midsync", "Vdata+Vgroup", "new-SDS", "new-GR-image", "annotations",
+                                 "H-linked+compressed-elements", "Vdata+Vgroup-with-attributes", "new-chunked+unlimited-SDS", "new-GR-image+palette+attribute"};
 
 /* ------------------------------------------------------------ flush bookkeeping */
 #define MAXSEQ 512
@@ -237,6 +238,10 @@ base_digest(const char *path, int nbase, int mixed, char *why, size_t nwhy)
 }
 
 /* ------------------------------------------------------------ sessions (append-only) */
+/* how the H-level sessions open the existing file: all three mean "update what is there" */
+static const int   OPENMODE[3]     = {DFACC_RDWR, DFACC_WRITE, DFACC_ALL};
+static const char *openmode_name[] = {"DFACC_RDWR", "DFACC_WRITE", "DFACC_ALL"};
+static int         g_mode;
 static int
 run_session(int sess, int nnew)
 {
@@ -245,7 +250,7 @@ run_session(int sess, int nnew)
         case S_H:
         case S_HSYNC: {
             API("Hopen", 0);
-            int32 fid = Hopen(PATH, DFACC_RDWR, 0);
+            int32 fid = Hopen(PATH, OPENMODE[g_mode], 0);
             if (fid == FAIL)
                 return -1;
             for (int i = 0; i < nnew; i++) {
@@ -263,7 +268,7 @@ run_session(int sess, int nnew)
         }
         case S_V: {
             API("Hopen", 0);
-            int32 fid = Hopen(PATH, DFACC_RDWR, 0);
+            int32 fid = Hopen(PATH, OPENMODE[g_mode], 0);
             if (fid == FAIL)
                 return -1;
             API("Vstart", 0);
@@ -326,7 +331,7 @@ run_session(int sess, int nnew)
         }
         case S_GR: {
             API("Hopen", 0);
-            int32 fid = Hopen(PATH, DFACC_RDWR, 0);
+            int32 fid = Hopen(PATH, OPENMODE[g_mode], 0);
             if (fid == FAIL)
                 return -1;
             API("GRstart", 0);
@@ -348,7 +353,7 @@ run_session(int sess, int nnew)
         }
         case S_AN: {
             API("Hopen", 0);
-            int32 fid = Hopen(PATH, DFACC_RDWR, 0);
+            int32 fid = Hopen(PATH, OPENMODE[g_mode], 0);
             if (fid == FAIL)
                 return -1;
             API("ANstart", 0);
@@ -367,15 +372,171 @@ run_session(int sess, int nnew)
             API("Hclose", 1);
             return Hclose(fid);
         }
+        case S_HSPEC: {
+            API("Hopen", 0);
+            int32 fid = Hopen(PATH, OPENMODE[g_mode], 0);
+            if (fid == FAIL)
+                return -1;
+            uint8 blk[24];
+            for (int i = 0; i < 24; i++)
+                blk[i] = (uint8)(0xC0 + i);
+            for (int i = 0; i < nnew && i < 3; i++) {
+                API("HLcreate", 0);
+                int32 aid = HLcreate(fid, 320, (uint16)(i + 1), 4, 2); /* 4-byte blocks, 2 per table: several tables */
+                if (aid == FAIL)
+                    return -1;
+                API("Hwrite", 0);
+                if (Hwrite(aid, 22, blk) != 22)
+                    return -1;
+                API("Hendaccess", 0);
+                if (Hendaccess(aid) == FAIL)
+                    return -1;
+                comp_info  ci;
+                model_info mi;
+                memset(&ci, 0, sizeof ci);
+                memset(&mi, 0, sizeof mi);
+                ci.deflate.level = 6;
+                API("HCcreate", 0);
+                aid = HCcreate(fid, 321, (uint16)(i + 1), COMP_MODEL_STDIO, &mi, i == 1 ? COMP_CODE_DEFLATE : COMP_CODE_RLE, &ci);
+                if (aid == FAIL)
+                    return -1;
+                API("Hwrite", 0);
+                if (Hwrite(aid, 24, blk) != 24)
+                    return -1;
+                API("Hendaccess", 0);
+                if (Hendaccess(aid) == FAIL)
+                    return -1;
+            }
+            API("Hclose", 1);
+            return Hclose(fid);
+        }
+        case S_VATTR: {
+            API("Hopen", 0);
+            int32 fid = Hopen(PATH, OPENMODE[g_mode], 0);
+            if (fid == FAIL)
+                return -1;
+            API("Vstart", 0);
+            Vstart(fid);
+            API("Vattach", 0);
+            int32 vg = Vattach(fid, -1, "w");
+            if (vg == FAIL)
+                return -1;
+            Vsetname(vg, "attrvg");
+            Vsetclass(vg, "newclass");
+            for (int i = 0; i < nnew && i < 3; i++) {
+                API("VSattach", 0);
+                int32 vs = VSattach(fid, -1, "w");
+                if (vs == FAIL)
+                    return -1;
+                API("VSdefine", 0);
+                VSsetname(vs, "attrvd");
+                VSfdefine(vs, "p", DFNT_INT16, 2);
+                VSfdefine(vs, "q", DFNT_FLOAT32, 1);
+                VSsetfields(vs, "p,q");
+                uint8 rec[2 * 8] = {1, 2, 3, 4, 5, 6, 7, 8, 9, 10, 11, 12, 13, 14, 15, 16};
+                API("VSwrite", 0);
+                if (VSwrite(vs, rec, 2, FULL_INTERLACE) != 2)
+                    return -1;
+                int32 av = 40 + i;
+                API("VSsetattr", 0);
+                if (VSsetattr(vs, _HDF_VDATA, "va", DFNT_INT32, 1, &av) == FAIL || VSsetattr(vs, 1, "fa", DFNT_CHAR8, 3, "abc") == FAIL)
+                    return -1;
+                API("Vinsert", 0);
+                Vinsert(vg, vs);
+                API("VSdetach", 0);
+                if (VSdetach(vs) == FAIL)
+                    return -1;
+            }
+            float32 ga = 1.25f;
+            API("Vsetattr", 0);
+            if (Vsetattr(vg, "ga", DFNT_FLOAT32, 1, &ga) == FAIL)
+                return -1;
+            API("Vdetach", 0);
+            if (Vdetach(vg) == FAIL)
+                return -1;
+            API("Vend", 1);
+            Vend(fid);
+            API("Hclose", 1);
+            return Hclose(fid);
+        }
+        case S_SDCHUNK: {
+            API("SDstart", 0);
+            int32 sd = SDstart(PATH, DFACC_RDWR);
+            if (sd == FAIL)
+                return -1;
+            int32 dims[2] = {4, 3};
+            API("SDcreate", 0);
+            int32 sds = SDcreate(sd, "newchunked", DFNT_INT16, 2, dims);
+            HDF_CHUNK_DEF cd;
+            memset(&cd, 0, sizeof cd);
+            cd.comp.chunk_lengths[0]    = 2;
+            cd.comp.chunk_lengths[1]    = 2;
+            cd.comp.comp_type           = COMP_CODE_DEFLATE;
+            cd.comp.cinfo.deflate.level = 6;
+            API("SDsetchunk", 0);
+            if (SDsetchunk(sds, cd, nnew > 1 ? (HDF_CHUNK | HDF_COMP) : HDF_CHUNK) == FAIL)
+                return -1;
+            int32 st[2] = {0, 0};
+            int16 v[12] = {1, 2, 3, 4, 5, 6, 7, 8, 9, 10, 11, 12};
+            API("SDwritedata", 0);
+            if (SDwritedata(sds, st, NULL, dims, v) == FAIL)
+                return -1;
+            API("SDendaccess", 0);
+            SDendaccess(sds);
+            int32 ud[1] = {SD_UNLIMITED};
+            API("SDcreate", 0);
+            sds = SDcreate(sd, "newrec", DFNT_INT32, 1, ud);
+            int32 cnt[1] = {3}, rv[3] = {7, 8, 9};
+            API("SDwritedata", 0);
+            if (SDwritedata(sds, st, NULL, cnt, rv) == FAIL)
+                return -1;
+            API("SDendaccess", 0);
+            SDendaccess(sds);
+            API("SDend", 1);
+            return SDend(sd);
+        }
+        case S_GRPAL: {
+            API("Hopen", 0);
+            int32 fid = Hopen(PATH, OPENMODE[g_mode], 0);
+            if (fid == FAIL)
+                return -1;
+            API("GRstart", 0);
+            int32 gr = GRstart(fid);
+            int32 dims[2] = {3, 2};
+            API("GRcreate", 0);
+            int32 ri = GRcreate(gr, "newpalimg", 1, DFNT_UINT8, MFGR_INTERLACE_PIXEL, dims);
+            uint8 pix[6] = {1, 2, 3, 4, 5, 6}, pal[768];
+            for (int i = 0; i < 768; i++)
+                pal[i] = (uint8)(i * 5);
+            int32 st[2] = {0, 0};
+            API("GRwriteimage", 0);
+            if (GRwriteimage(ri, st, NULL, dims, pix) == FAIL)
+                return -1;
+            API("GRwritelut", 0);
+            int32 lut = GRgetlutid(ri, 0);
+            if (GRwritelut(lut, 3, DFNT_UINT8, MFGR_INTERLACE_PIXEL, 256, pal) == FAIL)
+                return -1;
+            int16 av = 9;
+            API("GRsetattr", 0);
+            if (GRsetattr(ri, "ia", DFNT_INT16, 1, &av) == FAIL)
+                return -1;
+            API("GRendaccess", 0);
+            GRendaccess(ri);
+            API("GRend", 1);
+            GRend(gr);
+            API("Hclose", 1);
+            return Hclose(fid);
+        }
     }
     return -1;
 }
 
 /* ------------------------------------------------------------ one case */
 typedef struct {
-    int ndds, nbase, mixed, sess, nnew;
+    int ndds, nbase, mixed, sess, nnew, mode;
 } case_t;
-static case_t cases[512];
+#define MAXCASES 8192
+static case_t cases[MAXCASES];
 static int    ncases;
 
 static void
@@ -408,10 +569,11 @@ run_case(long idx, void *ctx)
 {
     (void)ctx;
     case_t *c      = &cases[idx];
-    int     cfg[5] = {c->ndds, c->nbase, c->mixed, c->sess, c->nnew};
-    mc_set_config(cfg, 5, "ndds=%d base=%d elements%s session=%s x%d", c->ndds, c->nbase, c->mixed == 1 ? "+Vdata/Vgroup/AN/GR/SDS" : c->mixed == 2 ? "+aliases so that a descriptor block ends the file" : "", sessname[c->sess],
-                  c->nnew);
-    mc_set_case("base(ndds=%d,n=%d,mixed=%d) + %s x%d", c->ndds, c->nbase, c->mixed, sessname[c->sess], c->nnew);
+    int     cfg[6] = {c->ndds, c->nbase, c->mixed, c->sess, c->nnew, c->mode};
+    mc_set_config(cfg, 6, "ndds=%d base=%d elements%s session=%s x%d open=%s", c->ndds, c->nbase, c->mixed == 1 ? "+Vdata/Vgroup/AN/GR/SDS" : c->mixed == 2 ? "+aliases so that a descriptor block ends the file" : "", sessname[c->sess],
+                  c->nnew, openmode_name[c->mode]);
+    mc_set_case("base(ndds=%d,n=%d,mixed=%d) + %s x%d, opened with %s", c->ndds, c->nbase, c->mixed, sessname[c->sess], c->nnew, openmode_name[c->mode]);
+    g_mode = c->mode;
     if (build_base(c->ndds, c->nbase, c->mixed)) {
         mc_harness_error("cannot build base file");
         return;
@@ -478,7 +640,7 @@ run_case(long idx, void *ctx)
     mc_count("sessions", 1);
     mc_count("log_writes", nlog);
     /* every prefix */
-    int  clause2  = c->sess == S_H || c->sess == S_HSYNC || c->sess == S_V;
+    int  clause2  = c->sess == S_H || c->sess == S_HSYNC || c->sess == S_V || c->sess == S_HSPEC || c->sess == S_VATTR;
     long nprefix  = 0;
     vfs_copy(BASECOPY, IMG);
     vfile *img = vfs_lookup(IMG);
@@ -556,7 +718,7 @@ C17_main(const char *tier, const char *replay)
         mc_op ops[4];
         if (mc_load_replay(replay, cfg, &ncfg, ops, &nops, 4) || ncfg < 5)
             return 2;
-        cases[0] = (case_t){cfg[0], cfg[1], cfg[2], cfg[3], cfg[4]};
+        cases[0] = (case_t){cfg[0], cfg[1], cfg[2], cfg[3], cfg[4], ncfg >= 6 ? cfg[5] : 0};
         ncases   = 1;
         printf("replay C17: ndds=%d nbase=%d mixed=%d session=%s x%d\n", cfg[0], cfg[1], cfg[2], sessname[cfg[3]], cfg[4]);
         run_case(0, NULL);
@@ -573,16 +735,25 @@ C17_main(const char *tier, const char *replay)
                 for (int sess = 0; sess < S_NSESS; sess++) {
                     int nn[3] = {1, 3, ndds + 2};
                     for (int k = 0; k < 3; k++) {
-                        if ((sess == S_SD || sess == S_GR) && k > 0)
+                        if ((sess == S_SD || sess == S_GR || sess == S_GRPAL) && k > 0)
                             continue;
-                        if (sess == S_V && k == 2)
+                        if ((sess == S_V || sess == S_HSPEC || sess == S_VATTR || sess == S_SDCHUNK) && k == 2)
                             continue;
                         if (!thorough && mixed == 1 && (bi == 0 || bi == 4))
                             continue;
-                        if (mixed == 2 && (sess == S_SD || sess == S_GR || bi == 5))
+                        if (mixed == 2 && (sess == S_SD || sess == S_GR || sess == S_SDCHUNK || sess == S_GRPAL || bi == 5))
                             continue;
-                        if (ncases < 512)
-                            cases[ncases++] = (case_t){ndds, nb[bi], mixed, sess, nn[k]};
+                        /* SD sessions open through SDstart(DFACC_RDWR) only */
+                        int nmodes = (sess == S_SD || sess == S_SDCHUNK) ? 1 : 3;
+                        for (int mode = 0; mode < nmodes; mode++) {
+                            if (!thorough && mode == 1 && k > 0)
+                                continue;
+                            if (ncases >= MAXCASES) {
+                                mc_harness_error("case table too small");
+                                return 0;
+                            }
+                            cases[ncases++] = (case_t){ndds, nb[bi], mixed, sess, nn[k], mode};
+                        }
                     }
                 }
     }
@@ -591,9 +762,10 @@ C17_main(const char *tier, const char *replay)
     mc_round_end();
     mc_count("evaluations", mc_get("images_checked"));
     mc_rule("for each (base file: ndds x number of elements around a full DD block x plain/mixed content) x (append-only session: H elements, "
-            "H with mid-session Hsync, Vdata+Vgroup, new SDS, new GR image, annotations) the ordered log of fwrite calls is recorded; EVERY prefix "
+            "H with mid-session Hsync, Vdata+Vgroup, new SDS, new GR image, annotations, new linked-block and compressed elements, Vdata+Vgroup with "
+            "attributes, new chunked / chunked+deflate and unlimited SDS, GR image with palette and attribute) each H-level session opening the file with DFACC_RDWR, DFACC_WRITE and DFACC_ALL, the ordered log of fwrite calls is recorded; EVERY prefix "
             "of the log is materialised (each write atomic) and checked in a pristine process: independent format validation, Hopen, all pre-existing "
             "objects read back through their own interface and compared; plus the direct invariant that no write before a sync/close call lands "
-            "below the old end of file. Images inside the flush are checked for H and V sessions only (clause 2). distinct = distinct image contents.");
+            "below the old end of file. Images inside the flush are checked for H and V sessions only (clause 2: H elements incl. linked/compressed, Vdata/Vgroup incl. attributes). distinct = distinct image contents.");
     return 0;
 }
